@@ -2,7 +2,7 @@
 NOT_APPLICABLE_REASON = {}
 CLAIMS = {
     "C03": {
-        "text": "Exploration: ~250k key pairs per quick run (millions thorough) from collision-prone alphabets through 10 construction paths are checked against the Eq/Ord/Hash laws and a canonical-form model; racing first get_hash() calls are forced into the window between the two publishing stores by a gate hook, and re-run under Miri's weak-memory scheduler. Held = no counterexample among the pairs/interleavings observed.",
+        "text": "Exploration: ~250k key pairs per quick run (millions thorough) from collision-prone alphabets through 10 construction paths are checked against the Eq/Ord/Hash laws and a canonical-form model; racing first get_hash() calls are forced into the window between the two publishing stores by a gate hook, and re-run under Miri's weak-memory scheduler; clones taken while another thread performs the first get_hash() of a key with a megabyte-sized name must hash like the original. Held = no counterexample among the pairs/interleavings observed.",
         "note": "Trusts the harness's canonical-form model (name + sorted label multiset) and the recording hasher; x86 hides store reorderings natively, so ordering bugs between the two atomics are only observable through the hook gate (program-order swaps) and Miri (weak memory).",
         "technique": "runtime monitoring: relational oracle over generated key pools + gated/Miri race executions",
     },
@@ -98,7 +98,7 @@ CLAIMS["C18"] = {
     "technique": "runtime monitoring: socket-level client harness with scripted faults + HTTP response decoder + CIDR reference model + exposition parser",
 }
 CLAIMS["C11"] = {
-    "text": "Exploration with fault scripts: real exporters for every buffer configuration (incl. no limit) are driven by tagged emissions from several threads while harness clients read, stall, close, reset and join late; every byte each client received is decoded by an independent protobuf decoder and judged (whole frames, metadata first, intact content, per-emitter order, no duplicate, no gap for reading clients under ack-based pacing), and the exporter's client accounting is checked against the harness's own view after every round. Non-serving configurations are established logically (listener refuses connections).",
+    "text": "Exploration with fault scripts: real exporters for every buffer configuration (incl. no limit) are driven by tagged emissions from several threads while harness clients read, stall, close, reset and join late; every byte each client received is decoded by an independent protobuf decoder and judged (whole frames, metadata first, intact content, per-emitter order, no duplicate, no gap for reading clients under ack-based pacing), and the exporter's client accounting is checked against the harness's own view after every round. Non-serving configurations are established logically (listener refuses connections). A stall leg fills a non-reading client's socket with megabytes of large frames and requires whole frames after it resumes; a wake leg runs thousands of back-to-back bursts from several threads and requires bounded progress once the emitters are quiet (no progress for 3 s followed by immediate delivery after an unrelated wake-up is a violation).",
     "note": "Delivery is judged by logical evidence only (gaps, accounting, refused connections); pure wall-clock stalls are inconclusive. Miri cannot run mio, so this property is native-only.",
     "technique": "runtime monitoring: socket-level clients with scripted faults, independent frame decoder, per-emitter sequence oracle, state-invariant accessor",
 }
